@@ -20,7 +20,8 @@ CONSTANTS Kinds,        \* column kinds (records: name, optional-capable, dictab
           Optionals,    \* subset of BOOLEAN
           RgSplits,     \* maximum number of row groups
           PageSplits,   \* maximum pages per chunk
-          Versions, Encodings, DefRunStyles, IndexRunStyles, IndexWidthStyles, Codecs, CompressedFlags, Creators
+          Versions, Encodings, DefRunStyles, IndexRunStyles, IndexWidthStyles, Codecs, CompressedFlags, Creators,
+          DictPads      \* numbers of UNUSED entries a writer may put in front of the used ones in a dictionary page
 
 NULL == -1
 NV == 4
@@ -78,16 +79,18 @@ BeginChunk ==
   /\ pc = "chunk" /\ todoRg # <<>>
   /\ LET r == Head(todoRg) IN
      \E usedict \in (IF col.kind.dictable /\ "DICT" \in Encodings THEN BOOLEAN ELSE {FALSE}) :
-     \E cuts \in Cuts(r.b - r.a + 1, PageSplits) :
+     \E cuts \in Cuts(r.b - r.a + 1, PageSplits) : \E pad \in (IF usedict THEN DictPads ELSE {0}) :
        /\ cur' = [a |-> r.a, b |-> r.b, dict |-> IF usedict THEN Distinct(NonNullSeq(r.a, r.b), {}) ELSE <<>>,
-                  usedict |-> usedict, pages |-> <<>>, fellback |-> FALSE]
+                  usedict |-> usedict, pad |-> pad, pages |-> <<>>, fellback |-> FALSE]
        /\ todoPg' = [p \in DOMAIN PiecesFrom(1, cuts, r.b - r.a + 1) |->
                        [a |-> r.a + PiecesFrom(1, cuts, r.b - r.a + 1)[p].a - 1,
                         b |-> r.a + PiecesFrom(1, cuts, r.b - r.a + 1)[p].b - 1]]
   /\ pc' = "page" /\ UNCHANGED <<col, rgs, todoRg>>
 
 IndexOf(d, v) == CHOOSE j \in DOMAIN d : d[j] = v
-MinWidth(n) == IF n <= 1 THEN 0 ELSE IF n <= 2 THEN 1 ELSE IF n <= 4 THEN 2 ELSE 3
+RECURSIVE BitLen(_)
+BitLen(m) == IF m = 0 THEN 0 ELSE 1 + BitLen(m \div 2)
+MinWidth(n) == IF n <= 1 THEN 0 ELSE BitLen(n - 1)       \* bits of the largest index n - 1
 WidthFor(style, n) == CASE style = "min" -> MinWidth(n) [] style = "plus1" -> MinWidth(n) + 1
                         [] style = "w8" -> 8 [] style = "w16" -> 16 [] style = "w32" -> 32 [] style = "w17" -> 17
 
@@ -105,14 +108,15 @@ DataPage ==
           /\ (enc # "DICT" => is = "rle" /\ ws = "min")               \* irrelevant choices pinned
           /\ (~col.optional => ds = "rle")
           /\ (col.optional => ds \in DefRunStyles) /\ (enc = "DICT" => is \in IndexRunStyles /\ ws \in IndexWidthStyles)
+          /\ (enc = "DICT" => WidthFor(ws, Len(cur.dict) + cur.pad) >= MinWidth(Len(cur.dict) + cur.pad))
           /\ (v = 2 => cf \in CompressedFlags)
           /\ (v = 1 => cf = "absent")                                 \* the flag exists in v2 headers only
           /\ (col.codec = "UNCOMPRESSED" => cf \in {"absent", "true"})
-          /\ LET idx == [j \in DOMAIN vals |-> IndexOf(cur.dict, vals[j]) - 1]
+          /\ LET idx == [j \in DOMAIN vals |-> IndexOf(cur.dict, vals[j]) - 1 + cur.pad]
                  pg == [a |-> p.a, b |-> p.b, v |-> v, enc |-> enc,
                         def_runs |-> IF col.optional THEN Runs(ds, levels) ELSE <<>>,
                         index_runs |-> IF enc = "DICT" THEN Runs(is, idx) ELSE <<>>,
-                        index_width |-> IF enc = "DICT" THEN WidthFor(ws, Len(cur.dict)) ELSE 0,
+                        index_width |-> IF enc = "DICT" THEN WidthFor(ws, Len(cur.dict) + cur.pad) ELSE 0,
                         compressed |-> cf]
              IN cur' = [cur EXCEPT !.pages = Append(@, pg), !.fellback = (@ \/ (cur.usedict /\ enc # "DICT"))]
   /\ todoPg' = Tail(todoPg) /\ UNCHANGED <<col, pc, rgs, todoRg>>
